@@ -133,7 +133,12 @@ var zListLensQuick = []int{0, 1, 2, 3, 7, 8, 9, 15, 16, 17, 31, 32, 255, 256, 25
 
 func zListLen() int {
 	if vTier() == 1 {
-		return vChoice("len", 601)
+		// every length 0..600, and lengths around the decoder's allocation chunk (4096)
+		n := vChoice("len", 604)
+		if n > 600 {
+			return []int{4096, 4097, 8193}[n-601]
+		}
+		return n
 	}
 	return zListLensQuick[vChoice("len", len(zListLensQuick))]
 }
